@@ -115,12 +115,21 @@ var c15Srcs = map[string]string{
 	"reader":        "p(a, s, w, n, x, ok, q, i, b)\nadd_key(seen_a, a)\nadd_key(seen_x, x)\n",
 	"reader-use":    "use(\"reader2.p\")\np(a, x)\n",
 	"reader2":       "p(a, s, w, n, x, ok)\n",
+	// the same grok pattern text under different script-local alias definitions
+	"grok-alias-digits":  "add_pattern(\"tok\", \"[0-9]+\")\nif true {\n  ok = grok(_, \"%{tok:w}\")\n  p(ok, w)\n}\n",
+	"grok-alias-letters": "add_pattern(\"tok\", \"[a-z]+\")\nif true {\n  ok = grok(_, \"%{tok:w}\")\n  p(ok, w)\n}\n",
+	"grok-alias-top":     "add_pattern(\"tok\", \"[a-z]+ [0-9]\")\nok = grok(_, \"%{tok:w}\")\np(ok, w)\n",
+	"grok-alias-loop":    "add_pattern(\"tok\", \"c [0-9]\")\nfor i = 0; i < 2; i = i + 1 {\n  if i == 1 {\n    ok = grok(_, \"%{tok:w}\")\n    p(ok, w)\n  }\n}\n",
+	"grok-alias-inner":   "if true {\n  add_pattern(\"tok\", \"bc\")\n  for e in [1] {\n    ok = grok(_, \"%{tok:w}\")\n    p(ok, w)\n  }\n}\n",
+	"grok-alias-shadow":  "add_pattern(\"tok\", \"[0-9]+\")\nif true {\n  add_pattern(\"tok\", \"a\")\n  ok = grok(_, \"%{tok:w}\")\n  p(ok, w)\n}\nok = grok(_, \"%{tok:w}\")\np(ok, w)\n",
+	"grok-global-only":   "if true {\n  ok = grok(_, \"%{WORD:w} %{INT:n}\")\n  p(ok, w, n)\n}\n",
 	"lib":           "add_key(from_lib, \"lib\")\nb = 2\n",
 	"badrun":        "add_key(in_bad, 1)\nboom()\n",
 }
 
 var c15Invalid = []string{"a b", "x = 0x", "-1e", "for a in 1e {}", "x = \"unterminated", "x = 'a\\q'", "if { }", "x = [1, 2", "))", "x = 1 / 0", "f(", "x = \"\"\"abc", "`raw", "a = \xff\xfe", "x = 1 +", "for ;; ", "{", "x = a[1:2:3:4]", "else {}", "x = 99999999999999999999999e9999"}
-var c15CheckFail = []string{"nosuch()", "x = [1, add_key()]", "break", "if a { continue }", "cast(x, \"nosuchtype\")", "grok(_, \"%{NOSUCH:x}\")", "a[::nosuch()]", "use(\"missing.p\")", "{1: 2}", "for x in y { for ;; { break } }\nbreak"}
+var c15CheckFail = []string{"nosuch()", "x = [1, add_key()]", "break", "if a { continue }", "cast(x, \"nosuchtype\")", "grok(_, \"%{NOSUCH:x}\")", "a[::nosuch()]", "use(\"missing.p\")", "{1: 2}", "for x in y { for ;; { break } }\nbreak",
+	"if true {\n  ok = grok(_, \"%{tok:w}\")\n}\n", "if true {\n  add_pattern(\"tok\", \"x\")\n}\nok = grok(_, \"%{tok:w}\")\n", "for e in [1] {\n  if e {\n    grok(_, \"%{tok:w}\")\n  }\n}\n"}
 
 // extra probes for this check
 func c15Funcs() (map[string]plrt.FuncCall, map[string]plrt.FuncCheck) {
@@ -215,7 +224,8 @@ func c15RunV1(st *c15State, main string, rs *drive.RunState, opts ...plrt.Opt) s
 func c15Pool(seed int64) []c15Op {
 	var ops []c15Op
 	for _, name := range []string{"ok-simple", "ok-grok", "ok-loop", "ok-containers", "fail-mid-loop", "fail-type", "exit-early", "use-ok", "use-fail",
-		"void-after-val", "regs-full", "strfmt-print", "time", "xml-sql", "json", "rename-tag", "fail-nested-vars", "fail-in-use-branch", "reader", "reader-use"} {
+		"void-after-val", "regs-full", "strfmt-print", "time", "xml-sql", "json", "rename-tag", "fail-nested-vars", "fail-in-use-branch", "reader", "reader-use",
+		"grok-alias-digits", "grok-alias-letters", "grok-alias-top", "grok-alias-loop", "grok-alias-inner", "grok-alias-shadow", "grok-global-only"} {
 		name := name
 		ops = append(ops, c15Op{"run:" + name, func(st *c15State) string { return c15RunV1(st, name, &drive.RunState{Budget: 20000}) }})
 	}
